@@ -95,4 +95,42 @@ let register () =
           | Format.Err e -> answer alloc (status_of_err e) acc
           | Format.Panic p -> answer alloc (status_of_panic p) acc in
         go (bytes_of_hex h) Z.zero []
+    | _ -> "ERR args");
+  (* c19.serve <idhex,idhex,...|-> <hex>: ProtocolServer.Serve on the client's byte stream; the store
+     holds exactly the listed ids.  items: chunk:<idhex> | missing:<idhex> (the replies sent) *)
+  Drv.register "c19.serve" (fun args -> match args with
+    | [ids; h] ->
+        let have = Stdlib.List.map bytes_of_hex (split_on ',' ids) in
+        let store id = if Stdlib.List.mem id have then ProtocolServer.SFound else ProtocolServer.SMissing in
+        let g = n_of_int 40 in
+        (match ProtocolServer.serve_handshake (bytes_of_hex h) with
+         | ((Format.Ok _, rest), a0) ->
+             let rec go b alloc acc =
+               match ProtocolServer.serve_one g store b with
+               | ((Format.Ok ProtocolServer.SDone, _), a) -> answer (Z.add alloc (z_of_n a)) "end" acc
+               | ((Format.Ok (ProtocolServer.SReply (ProtocolServer.RChunk id)), rest), a) ->
+                   go rest (Z.add alloc (z_of_n a)) (("chunk:" ^ hx id) :: acc)
+               | ((Format.Ok (ProtocolServer.SReply (ProtocolServer.RMissing id)), rest), a) ->
+                   go rest (Z.add alloc (z_of_n a)) (("missing:" ^ hx id) :: acc)
+               | ((Format.Err e, _), a) -> answer (Z.add alloc (z_of_n a)) (status_of_err e) acc
+               | ((Format.Panic p, _), a) -> answer (Z.add alloc (z_of_n a)) (status_of_panic p) acc in
+             go rest (z_of_n a0) []
+         | ((Format.Err e, _), a) -> answer (z_of_n a) (status_of_err e) []
+         | ((Format.Panic p, _), a) -> answer (z_of_n a) (status_of_panic p) [])
+    | _ -> "ERR args");
+  (* c19.client <hex>: Initialize, then RequestChunk while the server's stream lasts. items: missing | chunk *)
+  Drv.register "c19.client" (fun args -> match args with
+    | [h] ->
+        (match ProtocolServer.recv_hello (bytes_of_hex h) with
+         | ((Format.Ok _, rest), a0) ->
+             let rec go b alloc acc =
+               if b = [] then answer alloc "end" acc else
+               match ProtocolServer.request_reply b with
+               | ((Format.Ok ProtocolServer.CMissing, rest), a) -> go rest (Z.add alloc (z_of_n a)) ("missing" :: acc)
+               | ((Format.Ok (ProtocolServer.CChunk _), rest), a) -> go rest (Z.add alloc (z_of_n a)) ("chunk" :: acc)
+               | ((Format.Err e, _), a) -> answer (Z.add alloc (z_of_n a)) (status_of_err e) acc
+               | ((Format.Panic p, _), a) -> answer (Z.add alloc (z_of_n a)) (status_of_panic p) acc in
+             go rest (z_of_n a0) []
+         | ((Format.Err e, _), a) -> answer (z_of_n a) (status_of_err e) []
+         | ((Format.Panic p, _), a) -> answer (z_of_n a) (status_of_panic p) [])
     | _ -> "ERR args")
